@@ -50,6 +50,7 @@ def parseOp (s : String) : Option Op :=
   | ["ri", t, p] => do pure (.ri (← t.toNat?) (← p.toNat?))
   | ["cp", p, k] => do pure (.cp (← p.toNat?) (← k.toNat?))
   | ["cs", k] => k.toNat?.map .cs
+  | ["cm", t, k] => do pure (.cm (← t.toNat?) (← k.toNat?))
   | ["cr", p, t, q] => do pure (.cr (← p.toNat?) (← t.toNat?) (← q.toNat?))
   | ["cr8", s] => s.toNat?.map .cr8
   | ["de", s] => s.toNat?.map .de
